@@ -33,6 +33,7 @@ NOOP_STATEMENTS = {
     "s_for_if": "for ( int i%(i)d = 0 ; i%(i)d < 1 ; i%(i)d ++ ) if ( i%(i)d ) ;",
     "s_for_blk": "for ( int j%(i)d = 0 ; ; ) { break ; }",
     "s_if": "if ( 1 ) ;",
+    "s_stmt_expr": "( void ) ( { int q%(i)d = 1 ; q%(i)d ; } ) ;",
     "s_for_sa": "for ( _Static_assert ( 1 , \"m\" ) ; ; ) if ( 1 ) break ;",
     "s_sw": "switch ( 1 ) { case 1 : ; default : while ( 0 ) if ( 1 ) ; else ; }",
 }
